@@ -402,13 +402,21 @@ class C12:
                     continue
                 pts = list(dmap)
                 if key == 'pixels':
+                    # which pixels were used is *observed* at the RNG seam
+                    # (one recorded choice() of the right size); if the
+                    # library draws differently the value is not judged
                     k = rec2['rargs']['pixels']
-                    rs = np.random.RandomState()
-                    rs.set_state(rec2['rng_state_before'])
+                    ch = [c for c in rec2.get('rng_calls', [])
+                          if c[0] == 'choice' and len(c) > 3]
                     dp = data_rec['payload']
                     nx = len(dp['coords']['x']['values'])
                     ny = len(dp['coords']['y']['values'])
-                    sel = rs.choice(nx * ny, k, replace=False)
+                    if len(ch) != 1 or np.asarray(ch[0][3]).size != k or \
+                            len(set(np.asarray(ch[0][3]).tolist())) != k:
+                        continue
+                    sel = np.asarray(ch[0][3]).reshape(-1)
+                    if sel.max() >= nx * ny:
+                        continue
                     xs = np.asarray(dp['coords']['x']['values'], float)
                     ys = np.asarray(dp['coords']['y']['values'], float)
                     z0 = float(np.asarray(
